@@ -801,7 +801,10 @@ def gen_variable(ch, m):
         else:
             k = ch.randint(1, n - 2)
     elif t == 'radius':
-        ks = [k for k in range(1, n - 1) if not m.is_plane(k)]
+        # flat surfaces (also ones a pickup from a flat source has made
+        # flat) have no finite starting value
+        ks = [k for k in range(1, n - 1) if not m.is_plane(k)
+              and math.isfinite(m.surfs[k]['radius'])]
         if not ks:
             return None
         k = ch.pick(ks)
